@@ -91,7 +91,6 @@ func c10Extra(c *core.Check) {
 	rmv := removers(c)
 	n9 := 0
 	for _, f := range fs {
-		info := f.Info()
 		g := f.Graph()
 		for _, h := range g.Calls(func(id string, call *ast.CallExpr) bool { cf := f.CalleeFunc(call); return cf != nil && rmv[cf] }) {
 			call := h.N.(*ast.CallExpr)
@@ -112,8 +111,8 @@ func c10Extra(c *core.Check) {
 					cond = x.Cond
 				}
 				if cond != nil {
-					byLimit = byLimit || fieldUsed(info, cond, "metrics.Metric", "Limit")
-					byExpiry = byExpiry || fieldUsed(info, cond, "metrics.LabelValue", "Expiry")
+					byLimit = byLimit || c10CondUses(f, cond, "metrics.Metric", "Limit")
+					byExpiry = byExpiry || c10CondUses(f, cond, "metrics.LabelValue", "Expiry")
 				}
 				return true
 			})
@@ -208,4 +207,22 @@ func c10CalledUnderLimit(c *core.Check, f, gcf *core.Func) bool {
 		})
 	}
 	return n > 0 && all
+}
+
+// c10CondUses reports whether a condition consults the field, directly or
+// inside a module function it calls (a predicate helper such as lv.expired(now)).
+func c10CondUses(f *core.Func, cond ast.Expr, recvSuffix, name string) bool {
+	if fieldUsed(f.Info(), cond, recvSuffix, name) {
+		return true
+	}
+	hit := false
+	ast.Inspect(cond, func(n ast.Node) bool {
+		if call, ok := n.(*ast.CallExpr); ok {
+			if cf := f.CalleeFunc(call); cf != nil && fieldUsed(cf.Info(), cf.Body, recvSuffix, name) {
+				hit = true
+			}
+		}
+		return !hit
+	})
+	return hit
 }
